@@ -21,7 +21,8 @@ RULE = (
     "EVERY frame rotation of the frame alphabet x grain permutations (all n! for n <= 4, else "
     "reversal / roll / one transposition) x relabellings by the system's own proper rotation group "
     "(all |G|^n assignments for n <= 2, else patterns); theory: every 1-degree bin of every system; "
-    "extremes: single-orientation and seeded-uniform families. Invariance tolerances count the "
+    "extremes: single-orientation and seeded-uniform families; block-wise listed aggregates of 1030 "
+    "(thorough 2000) grains (> 2**19 pairs) under two re-listings. Invariance tolerances count the "
     "pairs whose misorientation angle lies within float32 rounding of a histogram bin edge "
     "(each may legitimately change bins: 1/n_pairs each). batched: stacks of 1..5 snapshots x "
     "worker counts 1..16 x ALL completion orders of the virtual pool, and stacks of 6..16 "
@@ -36,7 +37,7 @@ ASSUMPTIONS = [
     "'close to 0 for uniformly random orientations' is decided on a fixed finite family of seeded uniform sets with the loose bounds 0.25 (200 grains) / 0.35 (40 grains): a finite family, not a convergence proof",
     "the virtual pool implements the documented ordering contracts of multiprocessing.Pool (imap: submission order; imap_unordered: completion order; map/starmap: list in submission order)",
 ]
-BOUND = {"quick": "sets <= 40 grains; stacks <= 5 snapshots (all orders), <= 16 (<= 3 deviations); workers 1..16; real-pool conformance W = 1..4", "thorough": "sets <= 200 grains; real-pool conformance W = 1..16"}
+BOUND = {"quick": "sets <= 40 grains (+ 1030 once per system, permutations only); stacks <= 5 snapshots (all orders), <= 16 (<= 3 deviations); workers 1..16; real-pool conformance W = 1..4", "thorough": "sets <= 200 grains; real-pool conformance W = 1..16"}
 
 SYSTEMS = ["triclinic", "monoclinic", "orthorhombic", "rhombohedral", "tetragonal", "hexagonal"]
 _geo = _diag = _stats = None
@@ -153,6 +154,11 @@ def gen_cases(tier, seed):
         for n in (40,) + ((200,) if tier == "thorough" else ()):
             for s in ("random", "random2"):
                 keys.append(dict(part="extreme", system=sysname, kind=s, n=n))
+    # aggregates with more than 2**19 grain pairs, listed block-wise (placed early: the longest cases)
+    for sysname in ("triclinic", "orthorhombic") + (("hexagonal",) if tier == "thorough" else ()):
+        keys.append(dict(part="large", system=sysname, n=1030, n_random=700))
+    if tier == "thorough":
+        keys.append(dict(part="large", system="triclinic", n=2000, n_random=1500))
     for N in range(1, 6):
         for via in ("arg", "module"):
             keys.append(dict(part="batched", N=N, via=via))
@@ -285,9 +291,47 @@ def run_sequence(key):
     return res
 
 
+def run_large(key):
+    """More than 2**19 grain pairs (1030 .. grains) in a listing that is NOT exchangeable (a
+    block of random orientations followed by a block of one orientation): the index must not
+    depend on the order of the listing (seed C14f: pairs processed in batches whose histograms
+    are averaged without weights)."""
+    from scipy.spatial.transform import Rotation
+
+    res = empty_result()
+    n, nr = key["n"], key["n_random"]
+    A = np.concatenate([
+        Rotation.random(nr, random_state=900 + alph.SEED).as_matrix(),
+        np.repeat(alph.GEN["g0"][None], n - nr, axis=0),
+    ])
+    perms = {"reversed": np.arange(n)[::-1], "stride7": (7 * np.arange(n) + 3) % n if n % 7 else np.roll(np.arange(n), n // 3)}
+    base = mindex(A, key["system"])
+    res["n"] = 1
+    res["states"] = 1
+    vals = [base]
+    res["clauses"]["range"] = 1
+    if not (-1e-3 <= base <= 1 + 1e-3):
+        V(res, key, "range", {"M": base})
+    for nm, p in perms.items():
+        m = mindex(A[p], key["system"])
+        vals.append(m)
+        res["n"] += 1
+        res["trans"] += 1
+        res["clauses"]["permutation"] = res["clauses"].get("permutation", 0) + 1
+        if not abs(m - base) <= 1e-3:
+            V(res, key, "permutation", {"M_listed": base, "M_permuted": m}, perm=nm)
+        res["nontrivial"].append(digest(key, nm))
+    res["outcomes"].append(digest(np.round(vals, 6)))
+    res["obs"] = digest(vals)
+    res["sample"] = {"case": key, "M": base, "grain_pairs": n * (n - 1) // 2}
+    return res
+
+
 def run_case(key):
     if key["part"] == "sequence":
         return run_sequence(key)
+    if key["part"] == "large":
+        return run_large(key)
     return {"index": run_index, "theory": run_theory, "extreme": run_extreme, "batched": run_batched, "default_workers": run_default_workers}[key["part"]](key)
 
 
